@@ -227,11 +227,37 @@ def start_captured(ctx):
     ctx.require(loop, "parse_until_text: loop not found")
     saves = {src(s.value): src(s.targets[0]) for s in put.body if isinstance(s, ast.Assign) and s.lineno < loop[0].lineno and isinstance(s.targets[0], ast.Name)}
     sl_, sc_ = saves.get("self.matched_lineno"), saves.get("self.matched_charpos")
+    # or the keyword arguments of the exception are put together as a whole before the loop
+    early_kw = None
+    for s in put.body:
+        if isinstance(s, ast.Assign) and s.lineno < loop[0].lineno and isinstance(s.targets[0], ast.Name) and isinstance(s.value, ast.Dict):
+            kv = {const(k_): src(v_) for k_, v_ in zip(s.value.keys, s.value.values) if k_ is not None}
+            if kv.get("lineno") == "self.matched_lineno" and kv.get("pos") == "self.matched_charpos" and any(k_ is None for k_ in s.value.keys):
+                early_kw = s.targets[0].id
+    if early_kw is not None and sl_ is None and sc_ is None:
+        rs = [r for r in walk_func(put) if isinstance(r, ast.Raise)]
+        rebound = sum(1 for x in walk_func(put) if isinstance(x, ast.Name) and x.id == early_kw and isinstance(x.ctx, ast.Store)) != 1
+        ctx.ok("scan.save-line", db.where(put), "start line stored in the exception's keyword arguments before the loop")
+        ctx.ok("scan.save-col", db.where(put), "start column stored in the exception's keyword arguments before the loop")
+        ctx.check(bool(rs) and not rebound and isinstance(rs[0].exc, ast.Call) and any(k_.arg is None and isinstance(k_.value, ast.Name) and k_.value.id == early_kw for k_ in rs[0].exc.keywords), "scan.raise-start", db.where(rs[0]) if rs else db.where(put),
+                  "an unterminated construct is reported where the scan gave up, not where it began", "raises with the keyword arguments saved at the start")
+        sl_ = sc_ = "\0handled"
+    if sl_ == "\0handled":
+        pass
+    else:
+        _start_captured_names(ctx, db, put, loop, sl_, sc_)
+    _start_captured_rest(ctx, db)
+
+
+def _start_captured_names(ctx, db, put, loop, sl_, sc_):
     ctx.check(sl_ is not None, "scan.save-line", db.where(put), "the start line is not saved before scanning", "start line saved before the loop")
     ctx.check(sc_ is not None, "scan.save-col", db.where(put), "the start column is not saved before scanning", "start column saved before the loop")
     rs = [r for r in walk_func(put) if isinstance(r, ast.Raise)]
     reassigned = any(isinstance(s, ast.Name) and isinstance(s.ctx, ast.Store) and s.id in (sl_, sc_) for s in ast.walk(loop[0]))
     ctx.check(bool(rs) and sl_ is not None and sc_ is not None and not reassigned and P.has(rs[0], "{**$_, 'lineno': %s, 'pos': %s}" % (sl_, sc_)), "scan.raise-start", db.where(rs[0]) if rs else db.where(put), "an unterminated construct is reported where the scan gave up, not where it began", "raises with the saved start")
+
+
+def _start_captured_rest(ctx, db):
     for q, opener in (("lexer.Lexer.match_python_block", "<%"), ("lexer.Lexer.match_expression", "${")):
         fn = db.func(q)
         # locals that hold the lexer's position, saved before the scan for the end of the construct starts
